@@ -411,7 +411,30 @@ func ruleC13Advance(cx *Ctx) {
 	const rule = "C13.advance"
 	cx.R.Rule(rule, 1, "DeleteExpired stores the new wheel time before it sweeps and sweeps every level whose tick changed")
 	fn := cx.need(rule, expPkg, "Variable", "DeleteExpired")
-	sweep := cx.need(rule, expPkg, "Variable", "deleteExpiredFromBucket")
+	sweep := cx.P.Func(expPkg, "Variable", "deleteExpiredFromBucket")
+	if sweep == nil && fn != nil {
+		// by role: the function of the package that DeleteExpired hands its expire callback to
+		var cb *ssa.Parameter
+		for _, p := range fn.Params {
+			if sig, ok := p.Type().Underlying().(*types.Signature); ok && sig.Params().Len() == 2 {
+				cb = p
+			}
+		}
+		allInstrs(fn, func(in ssa.Instruction) {
+			c := calleeOf(in)
+			if c == nil || c.Pkg == nil || !strings.HasSuffix(c.Pkg.Pkg.Path(), expPkg) || cb == nil {
+				return
+			}
+			for _, a := range callCommon(in).Args {
+				if stripConv(a) == ssa.Value(cb) {
+					sweep = origin(c)
+				}
+			}
+		})
+	}
+	if sweep == nil {
+		cx.R.Undecided(rule, "internal/expiration.Variable.deleteExpiredFromBucket", "anchor", "-", "anchored mechanism internal/expiration.Variable.deleteExpiredFromBucket does not resolve any more")
+	}
 	timeF := cx.needField(rule, expPkg, "Variable", "time")
 	if fn == nil || sweep == nil || timeF == nil {
 		return
@@ -690,6 +713,7 @@ func ruleC13Span(cx *Ctx) {
 		return
 	}
 	// propagate: arithmetic that keeps the magnitude; AND / REM / narrowing drop it
+	taintedFields := map[*types.Var]bool{}
 	for changed := true; changed; {
 		changed = false
 		mark := func(v ssa.Value) {
@@ -717,6 +741,27 @@ func ruleC13Span(cx *Ctx) {
 						if tainted[e] {
 							mark(x)
 						}
+					}
+				case *ssa.Store:
+					// a struct of the package that carries the delta (levelSweep{delta: d}): field-based - what is stored
+					// into a field taints every read of that field
+					if tainted[x.Val] {
+						if fa, isFA := x.Addr.(*ssa.FieldAddr); isFA {
+							if fv := fieldOf(fa); fv != nil && fv.Pkg() != nil && strings.HasSuffix(fv.Pkg().Path(), expPkg) && !taintedFields[fv] {
+								taintedFields[fv] = true
+								changed = true
+							}
+						}
+					}
+				case *ssa.UnOp:
+					if x.Op == token.MUL {
+						if fv := fieldOf(x.X); fv != nil && taintedFields[fv] {
+							mark(x)
+						}
+					}
+				case *ssa.Field:
+					if fv := fieldOf(x); fv != nil && taintedFields[fv] {
+						mark(x)
 					}
 				case *ssa.Convert:
 					if tainted[x.X] {
@@ -845,6 +890,19 @@ func derivedFrom(v, x ssa.Value, depth int) bool {
 		return derivedFrom(t.X, x, depth+1) || derivedFrom(t.Y, x, depth+1)
 	case *ssa.Convert:
 		return derivedFrom(t.X, x, depth+1)
+	case *ssa.UnOp:
+		// a struct value built from the quantity (levelSweep{delta: d}): any field store into the literal
+		if al, ok := t.X.(*ssa.Alloc); ok {
+			for _, r := range *al.Referrers() {
+				if fa, isFA := r.(*ssa.FieldAddr); isFA {
+					for _, u := range *fa.Referrers() {
+						if st, isSt := u.(*ssa.Store); isSt && st.Addr == ssa.Value(fa) && derivedFrom(st.Val, x, depth+1) {
+							return true
+						}
+					}
+				}
+			}
+		}
 	case *ssa.Call:
 		if bi, ok := t.Call.Value.(*ssa.Builtin); ok && (bi.Name() == "min" || bi.Name() == "max") {
 			for _, a := range t.Call.Args {
